@@ -32,6 +32,7 @@ partial def parseStmt (j : Json) : Except String Stmt := do
   | "raiseBase" => return .raiseBase
   | "try" => return .try_ (← body "body")
   | "other" => return .other (← getNat j "k")
+  | "clsSet" => return .clsSet (← getNat j "p") (← getInt j "v")
   | s => throw s!"unknown stmt {s}"
 
 def jRes : Res → Json
